@@ -153,6 +153,9 @@ func NewStd(o *kernel.Outcome, tape *kernel.Tape, opt StdOptions) (*World, error
 	w.Store.Users["u1"] = &User{ID: "u1", Username: "alice", Password: "pw-alice", Email: "alice@sim", EmailVerified: true, Name: "Alice A", Phone: "+41 1"}
 	w.Store.Users["u2"] = &User{ID: "u2", Username: "bob", Password: "pw-bob", Email: "bob@sim", Name: "Bob B", Phone: "+41 2"}
 	// a subject of the tenant-prefixed / URN kind: it contains the character that separates id and subject in opaque tokens
+	// a subject as identity providers hand them out: an e-mail-like or "provider|id" string with characters that URL
+	// escaping rewrites (no colon: that is carol's business)
+	w.Store.Users["dave+x@sim.example/1 %7E|9"] = &User{ID: "dave+x@sim.example/1 %7E|9", Username: "dave", Password: "pw-dave", Email: "dave@sim", Name: "Dave D", Phone: "+41 4"}
 	w.Store.Users["tenant1:carol"] = &User{ID: "tenant1:carol", Username: "carol", Password: "pw-carol", Email: "carol@sim", Name: "Carol C", Phone: "+41 3"}
 	// provider configuration
 	w.Conf = &op.Config{
